@@ -68,6 +68,8 @@ type dgen struct {
 	methods     map[string][]fnInfo // struct -> methods
 	ifaces      []ifaceInfo
 	usersDone   map[string]bool
+	generics    []string // generic functions gfN[TP any](x TP) TP
+	nextFn      int      // index of the next function to be generated
 }
 
 type fnInfo struct {
@@ -226,6 +228,30 @@ func (g *dgen) genConst(i int) {
 	g.consts = append(g.consts, name)
 }
 
+// genGeneric adds a generic identity function. Its type parameter is usually T/K/V, sometimes it has
+// the name of a top-level declaration of the package (legal shadowing): the type parameter is bound
+// by the Definition itself and must neither be confused with that declaration nor hide it from
+// later declarations (seeded change C04-5).
+func (g *dgen) genGeneric(i int) {
+	name := fmt.Sprintf("gf%d", i)
+	tp := []string{"T", "K", "V"}[g.pick("tpname", 3)]
+	var pool []string
+	pool = append(pool, g.named...)
+	pool = append(pool, g.structs...)
+	pool = append(pool, g.consts...)
+	for _, f := range g.funcs {
+		pool = append(pool, f.name)
+	}
+	// … or of the function generated next, which may call this generic function: the bogus
+	// dependency "gf depends on fnK" then closes a cycle with the real one
+	pool = append(pool, fmt.Sprintf("fn%d", g.nextFn), fmt.Sprintf("fn%d", g.nextFn))
+	if len(pool) > 0 && g.chance("tpshadow", 45) {
+		tp = pool[g.pick("tpshadowidx", len(pool))]
+	}
+	g.add(Decl{Name: name, Text: "func " + name + "[" + tp + " any](x " + tp + ") " + tp + " {\n\treturn x\n}\n"})
+	g.generics = append(g.generics, name)
+}
+
 func (g *dgen) genIface(i int) {
 	name := fmt.Sprintf("I%d", i)
 	m := fmt.Sprintf("im%d", i)
@@ -239,7 +265,17 @@ func (g *dgen) body(self fnInfo, recv string, recvPtr bool, canRecurse bool) ([]
 	rec := false
 	n := g.pick("nbody", 5)
 	for k := 0; k < n; k++ {
-		switch g.pick("bodykind", 12) {
+		switch g.pick("bodykind", 13) {
+		case 12: // instantiate and call a generic function
+			if len(g.generics) > 0 {
+				f := g.generics[g.pick("gcallee", len(g.generics))]
+				if g.chance("ginferred", 40) {
+					lines = append(lines, "_ = "+f+"(uint64(3))")
+				} else {
+					lines = append(lines, "_ = "+f+"[uint64](3)")
+				}
+				deps = append(deps, f)
+			}
 		case 0: // call an earlier function
 			if len(g.funcs) > 0 {
 				f := g.funcs[g.pick("callee", len(g.funcs))]
@@ -505,9 +541,13 @@ func genCase(t *rapid.T) Case {
 	g := &dgen{t: t, methods: map[string][]fnInfo{}, usersDone: map[string]bool{}}
 	// interleave kinds in rank order so that later declarations can depend on earlier ones
 	n := 4 + g.pick("ndecls", 12)
-	si, ni, ci, fi, ii := 0, 0, 0, 0, 0
+	si, ni, ci, fi, ii, gi := 0, 0, 0, 0, 0, 0
 	for k := 0; k < n; k++ {
-		switch g.pick("declkind", 11) {
+		g.nextFn = fi
+		switch g.pick("declkind", 12) {
+		case 11:
+			g.genGeneric(gi)
+			gi++
 		case 0, 1:
 			g.genStruct(si)
 			si++
